@@ -226,6 +226,26 @@ impl StateCheck for C15 {
                     out.viol("in_unit_interval", &feats, &cfg, format!("{g}"), "[0,1]");
                 }
             }
+            // histories of library calls (read part of the file, push the remaining component, normalize again; normalize
+            // twice): the indicator of the component set reached must be the one of the whole file
+            if rn == "default" {
+                for v in crate::hist::variants(text, 6) {
+                    let Ok(c) = &v.comps else { continue };
+                    out.evals += 1;
+                    let Ok(ep) = subj::eval(c, &fs, 0.0, 1.0, false) else { continue };
+                    let g2 = cte::fraccion_renovable_acs_nrb(&ep).map(|x| x as f64).map_err(|e| format!("{e}"));
+                    out.compared += 1;
+                    out.regime("history_of_calls");
+                    let same2 = match (&got, &g2) {
+                        (Ok(x), Ok(y)) => (x - y).abs() <= 1e-4,
+                        (Err(_), Err(_)) => true,
+                        _ => false,
+                    };
+                    if !same2 {
+                        out.viol("same_after_edit_and_renormalize", &[mix.as_str(), "history"], format!("{cfg}; {}", v.desc), format!("{g2:?}"), format!("{got:?}"));
+                    }
+                }
+            }
             // the same closed form (with the matching factor on the PV share) when the balance uses load matching
             if let (Ok(Ok(g2)), Expect::Value(e2)) = (fraction_lm(text, &fs, 0.0, true, out), closed_form_lm(&p, red, true)) {
                 out.compared += 1;
